@@ -56,6 +56,23 @@ pub enum Event {
     Rollback,
     /// `save_prev_iterate` was called
     SavePrev,
+    /// exit of `DefaultKKTSystem::solve`: the direction it assembled, the right-hand side it
+    /// was given and the iterate it linearised about (dir 0 = affine, 1 = combined)
+    KktSolve {
+        dir: u32,
+        lhs_x: Vec<f64>,
+        lhs_z: Vec<f64>,
+        lhs_s: Vec<f64>,
+        lhs_tau: f64,
+        lhs_kappa: f64,
+        rhs_x: Vec<f64>,
+        rhs_z: Vec<f64>,
+        rhs_tau: f64,
+        rhs_kappa: f64,
+        x: Vec<f64>,
+        tau: f64,
+        kappa: f64,
+    },
 }
 
 thread_local! {
